@@ -184,6 +184,12 @@ def toIds (c : CLru K V) : Option (List Id) := walkNxt c.heap (c.size + 1) c.hea
 /-- `__iter__`: `cur = self.head; while cur: yield cur.key; cur = cur.nxt` -/
 def iter (c : CLru K V) : Option (List K) := (toIds c).map fun ids => ids.map fun i => (c.heap i).key
 
+/-- the methods `LRUCache` inherits from `dict` without overriding them (`get`, `keys`, `pop`,
+    `__delitem__`, …) act on the base `dict` object, which the class never writes to (it keeps
+    its entries in `self._dict`): `cache.get(k)` is always `None` (known finding
+    C15-inherited-dict) -/
+def inheritedGet (_c : CLru K V) (_k : K) : Option V := none
+
 /-! ### operations and outputs (the overridden interface of the class) -/
 
 inductive Op (K V : Type) where
